@@ -1080,11 +1080,26 @@ class Tensor:
     def sort(self, dim=-1, descending=False):
         raise Unsupported('sort')
 
-    def var(self, *a, **k):
-        raise Unsupported('var')
+    def var(self, dim=None, unbiased=True, keepdim=False, correction=None):
+        """assumed contract of torch.var: mean squared deviation from the mean along dim, times n/(n - correction)"""
+        if isinstance(dim, bool):          # var(unbiased) positional form
+            dim, unbiased = None, dim
+        corr = (1 if unbiased else 0) if correction is None else correction
+        mu = self.mean(dim=dim, keepdim=True) if dim is not None else self.mean()
+        dev = self - mu
+        ms = (dev * dev).mean(dim=dim, keepdim=keepdim) if dim is not None else (dev * dev).mean()
+        if corr == 0:
+            return ms
+        if dim is None:
+            n = 1
+            for d_ in self._shape:
+                n = n * d_
+        else:
+            n = self._shape[self._dim(dim)]
+        return ms * n / (n - corr)
 
-    def std(self, *a, **k):
-        raise Unsupported('std')
+    def std(self, dim=None, unbiased=True, keepdim=False, correction=None):
+        return self.var(dim=dim, unbiased=unbiased, keepdim=keepdim, correction=correction).sqrt()
 
     # ---- constructors relative to self
     def new_zeros(self, size, dtype=None, device=None):
